@@ -160,6 +160,9 @@ def _pipeline(m, rot, li, fw, sites8, labels, cubic, dict_radius=False, site_sca
     out['rdf'] = [float(v) for v in r.y]
     mt = traj.filter('Li').metrics()
     out['metrics'] = [float(mt.tracer_diffusivity(dimensions=3)), float(mt.particle_density()), float(mt.vibration_amplitude())]
+    # centre-of-mass quantities of all atoms (two species of different mass): atoms passing through a cell face in one copy and not in another
+    ma = traj.metrics()
+    out['metrics'] += [float(ma.tracer_diffusivity_center_of_mass(dimensions=3)), float(ma.haven_ratio(dimensions=3))]
     res = 0.99 if cubic is True else cubic                    # cubic: 8 voxels per axis also when a rotated cell length is 7.999999999999999
     if res:
         vol = traj.filter('Li').to_volume(resolution=res)
